@@ -266,6 +266,30 @@ class CreateCheck:
                                "cids": ["holesA", "holesB"][:world.nfiles(sh)],
                                "sparse": sp, "seed": seed,
                                "listing": "native", "cli": True})
+        # symbolic links inside the content (only where the quantifier does
+        # not exclude them): consistent treatment is all that is judged
+        if pid in ("C02", "C03", "C10"):
+            for scale, B, P, alpha in (("R", REAL_B, 32768, [5, 40000]),
+                                       ("S", 2, 4, [0, 3, 9])):
+                for g_ in e1.size_groups("D3", alpha):
+                    gs.append({"kind": "tree", "scale": scale, "B": B, "P": P,
+                               "shape": "D3", "alpha": alpha,
+                               "first": g_["first"], "links": True,
+                               "seed": seed, "listing": "native",
+                               "cli": scale == "R"})
+        # automatic piece length over more than a thousand files just above
+        # one block (padding and rounding move the totals across thresholds)
+        if pid in ("C01", "C15"):
+            gs.append({"kind": "vec", "scale": "R", "B": REAL_B, "P": None,
+                       "shape": "W1100", "seed": seed, "listing": "native",
+                       "cli": True,
+                       "sizes_list": e1.cyclic_vectors(
+                           1100, [16385, 20000, 17000], offsets=[0])})
+            gs.append({"kind": "vec", "scale": "R", "B": REAL_B, "P": None,
+                       "shape": "W300", "seed": seed, "listing": "native",
+                       "cli": True,
+                       "sizes_list": e1.cyclic_vectors(
+                           300, [32769, 70000, 16385], offsets=[0])})
         # R, the largest piece lengths the validator accepts, tiny files
         # (padding / zero-extension longer than 16 MiB)
         for P in ([1 << 25] if quick else [1 << 20, 1 << 24, 1 << 25]):
@@ -401,6 +425,25 @@ class CreateCheck:
         path = world.materialize(files, parent, name=name, shape=w["shape"],
                                  hardlink=w.get("hardlink", False),
                                  sparse=w.get("sparse", False))
+        trees = None
+        if w.get("links"):
+            # symbolic links below the content root (shape D3: a, d/b, e):
+            # two directory links to `d` -- one from a directory whose name
+            # merely begins like the target's, one from an unrelated one --
+            # and a link to the file `a`.  Whether links are followed is not
+            # fixed by the statements; every *consistent* policy is accepted
+            # (directory links followed or not, file links followed or not).
+            for holder in ("d-extras", "xtras"):
+                os.mkdir(os.path.join(path, holder))
+                os.symlink(os.path.join("..", "d"),
+                           os.path.join(path, holder, "main"))
+            os.symlink("a", os.path.join(path, "zlink"))
+            dl = {("d-extras", "main", "b"): tree[("d", "b")],
+                  ("xtras", "main", "b"): tree[("d", "b")]}
+            fl = {("zlink",): tree[("a",)]}
+            trees = [{**tree, **dl, **fl}, {**tree, **dl}, {**tree, **fl},
+                     dict(tree)]
+            tree = trees[0]
         out = {}
         trans = 0
         tf.reset_process_state()
@@ -452,6 +495,14 @@ class CreateCheck:
                 try:
                     raw = tf.create(creator, path, of, P, **kw)
                     out[label] = judge(oracle, raw, tree, P, B, name)
+                    if trees and out[label]:
+                        for alt in trees[1:]:
+                            if not judge(oracle, raw, alt, P, B, name):
+                                out[label] = []
+                                break
+                        else:
+                            out[label] = [("links:" + p_, d_)
+                                          for p_, d_ in out[label]]
                 except bep.OracleError:
                     raise
                 except Exception as e:  # noqa
@@ -479,6 +530,41 @@ class CreateCheck:
                                             piece_length=P)
                     forms["reassemble"] = dict(path=path, piece_length=P)
                     forms["write-twice"] = dict(path=path, piece_length=P)
+                    if os.path.isdir(path) and not trees and \
+                            not w.get("hardlink"):
+                        # the output inside the content directory, created
+                        # twice: the second metafile describes a tree that
+                        # holds the first one as an ordinary file
+                        own = os.path.join(path, "own.torrent")
+                        try:
+                            with tf.quiet():
+                                t1 = tf.CREATORS[creator](
+                                    outfile=own, progress=0,
+                                    **dict(kw, path=path, piece_length=P))
+                                t1.write()
+                            with open(own, "rb") as f:
+                                raw1 = f.read()
+                            with tf.quiet():
+                                t2 = tf.CREATORS[creator](
+                                    outfile=own, progress=0,
+                                    **dict(kw, path=path, piece_length=P))
+                                t2.write()
+                            with open(own, "rb") as f:
+                                raw2 = f.read()
+                            tree2 = dict(tree)
+                            tree2[("own.torrent",)] = raw1
+                            for p_, d_ in judge(oracle, raw2, tree2, P, B,
+                                                name):
+                                out[label].append(("inside-twice:" + p_, d_))
+                        except bep.OracleError:
+                            raise
+                        except Exception as e:  # noqa
+                            out[label].append(("api-form-raised:inside-twice:"
+                                               + type(e).__name__, None))
+                        finally:
+                            if os.path.exists(own):
+                                os.remove(own)
+                        trans += 2
                     for form, fkw in forms.items():
                         of2 = of + "." + form
                         oldcwd = os.getcwd()
@@ -519,6 +605,10 @@ class CreateCheck:
                     with open(of, "rb") as f:
                         raw = f.read()
                     out["cli"] = judge(oracle, raw, tree, P, B, name)
+                    if trees and out["cli"]:
+                        if any(not judge(oracle, raw, alt, P, B, name)
+                               for alt in trees[1:]):
+                            out["cli"] = []
                 except Exception as e:  # noqa
                     out["cli"] = [("creator-raised:" + type(e).__name__,
                                    str(e)[:200])]
@@ -648,6 +738,8 @@ class CreateCheck:
                 w["hardlink"] = True
             if g.get("sparse"):
                 w["sparse"] = True
+            if g.get("links"):
+                w["links"] = True
             obs, trans = self.observe(w, seed, cli=g.get("cli", False),
                                       listing=g.get("listing", "native"))
             res.states += 1
